@@ -690,6 +690,10 @@ func (c *MJMLComponent) collectCarouselCSSFromComponent(comp Component) {
 		for _, child := range v.Children {
 			c.collectCarouselCSSFromComponent(child)
 		}
+	case *components.MJHeroComponent:
+		for _, child := range v.Children {
+			c.collectCarouselCSSFromComponent(child)
+		}
 	}
 }
 
@@ -1185,6 +1189,12 @@ func (c *MJMLComponent) checkChildrenForCondition(component Component, condition
 			}
 		}
 	case *components.MJNavbarComponent:
+		for _, child := range v.Children {
+			if condition(child) || c.checkChildrenForCondition(child, condition) {
+				return true
+			}
+		}
+	case *components.MJHeroComponent:
 		for _, child := range v.Children {
 			if condition(child) || c.checkChildrenForCondition(child, condition) {
 				return true
